@@ -1,2 +1,37 @@
-(* C14 -- placeholder *)
-Theorem C14_placeholder : True. Proof. exact I. Qed.
+(* C14 -- every Ping is answered by exactly one matching Pong, in order.  Statements only. *)
+From Coq Require Import List NArith Bool.
+From Coq.Strings Require Import Byte.
+From Model Require Import Bytes Frame Conn.
+From Proofs Require Import ApiFacts TraceFacts.
+Import ListNotations.
+Open Scope N_scope.
+
+(* what the session does around one Ping event yielded by WebSocket.feed (auto-pong, handing the event to ANY application
+   strategy, housekeeping): when automatic pongs are enabled and the Pong is accepted (the client has not sent a Close,
+   the transport works), the trace grows by  ... ; TEv (Ping p) ; TWrite (Pong frame with payload p)  -- the Pong
+   is written immediately before the Ping event is handed over, hence before anything the application sends in
+   reaction to this or any later event, and Pongs go out in the order the Pings arrive *)
+Theorem C14_pong_precedes_ping_event : forall cf app c p c0,
+  c_auto_pong cf = true -> api_call c (CSendPong p) = (c0, None) ->
+  exists l, k_tr (fst (in_feed_yield cf app c (EvPing p))) =
+            l ++ TEv (EvPing p) :: TWrite (build OP_PONG false (next_key c) p) :: k_tr c
+            /\ Forall housekeeping l.
+Proof. exact ping_event_preceded_by_pong. Qed.
+Print Assumptions C14_pong_precedes_ping_event.
+
+(* with automatic pongs disabled the library writes nothing for a Ping *)
+Theorem C14_no_pong_when_disabled : forall cf app c p, c_auto_pong cf = false ->
+  exists l, k_tr (fst (in_feed_yield cf app c (EvPing p))) = l ++ TEv (EvPing p) :: k_tr c /\ Forall housekeeping l.
+Proof. exact ping_without_auto_pong. Qed.
+Print Assumptions C14_no_pong_when_disabled.
+
+(* a Pong that cannot be written (closing, closed, transport failed) is dropped silently: the session goes on *)
+Theorem C14_unwritable_pong_is_silent : forall cf c p c0 x, x <> XValueError ->
+  api_call c (CSendPong p) = (c0, Some x) -> snd (on_event cf c (EvPing p)) = SOk.
+Proof. exact pong_failure_is_silent. Qed.
+Print Assumptions C14_unwritable_pong_is_silent.
+
+(* the Pong frame decodes, at the reference server, to a Pong with exactly the Ping's payload *)
+Theorem C14_pong_payload : forall key p, length key = 4%nat -> blen p < 9223372036854775808 ->
+  server_decode (build OP_PONG false key p) = Some (Proofs.FrameFacts.client_frame OP_PONG false key p, []).
+Proof. intros. apply Proofs.FrameFacts.build_roundtrip; auto. reflexivity. Qed.
